@@ -125,9 +125,16 @@ def scenario(inst, V):
     if ret is None:
         variants.append(("typeguard", "dataclass", ident, "pos"))
         variants.append(("beartype", "dataclass", inst["perm"], "kw"))
+    variants.append(("typeguard", "function-str", ident, "pos"))
+    variants.append(("beartype", "function-str", ident, "kw"))
     verdicts = []
     for tc, style, order, how in variants:
-        fn, pn = fnlib.build(params, ret, V.ARR, tc, style, order)
+        if style == "function-str":
+            # the same function with *string* annotations (resolved by jaxtyped at decoration time)
+            fn, pn = fnlib.build(params, ret, V.ARR, tc, "function", order, stringify=True)
+            style = "function"
+        else:
+            fn, pn = fnlib.build(params, ret, V.ARR, tc, style, order)
         n0 = fnlib.HOLD["calls"]
         vals = [values[i] for i in order] if how == "pos" else values
         names = [pn[i] for i in order] if how == "pos" else pn
